@@ -12,6 +12,9 @@ parts
   between-datetime all ordered pairs of a small date-time alphabet x all 1023 unit subsets.
   between-time    all ordered pairs of the time alphabet x all 63 time-unit subsets.
   between-yearmonth all ordered pairs of the year-month alphabet x {YEARS, MONTHS, YEARS|MONTHS}.
+  apply-period    x + p, x.plus(p), T.add(x, p), x - p, x.minus(p), T.subtract(x, p) for LocalDate / LocalDateTime / LocalTime over a period alphabet with
+                  every combination of non-zero date fields (mixed signs) and time parts crossing midnight == the documented field-by-field model
+                  (years, months, weeks, days; the day carried from the time part rides on the days step), at month ends, leap days and firsts of month.
   cross-calendar  histories inside one process: the same (y, m, d) pairs asked calendar after calendar (several orders), answers vs day numbers.
   period-algebra  product alphabet of period components: normalize / to_duration preserve the fixed-length total,
                   to_builder().build() is the identity.
@@ -27,6 +30,7 @@ from pyoda_time import (CalendarSystem, LocalDate, LocalDateTime, LocalTime, Per
 
 from vf.core.evidence import Acc, exc_origin, exc_site
 from vf.core.par import pmap
+from vf.models import cloneref as cr
 from vf.models import dateline as dl
 from vf.models import periodref as pr
 
@@ -1032,6 +1036,7 @@ def w_algebra(job):
         vals["days"] = (0, 8, -15, 10**7)
     k = 0
     classes = set()
+    unsupported = set()
     for combo in itertools.product(*[vals[f] for f in pr.FIELDS]):
         k += 1
         if k % nshards != shard:
@@ -1040,6 +1045,13 @@ def w_algebra(job):
         p = PeriodBuilder(**dict(zip(pr.FIELDS, combo))).build()
         try:
             ok = _algebra(acc, p, "alphabet")
+            if k % 97 == 0:       # clone routes: a copied / unpickled period must be the same value
+                for route, status, c in cr.clones(p):
+                    acc.count(transitions=1, evaluations=1)
+                    if status == "unsupported":
+                        unsupported.add("Period via %s: %s" % (route, str(c)[:60]))
+                    elif status == "raises" or comps(c) != comps(p) or c != p or hash(c) != hash(p) or comps(c.normalize()) != comps(p.normalize()):
+                        acc.violation("C09/period/clone/%s" % (route.split("-")[0] if route.startswith("pickle") else route), "%s clone of %s is %r" % (route, pstr(p), c), {"kind": "algebra", "period": comps(p)})
             classes.add(tuple(pr.sign(v) for v in combo))
             if ok:
                 acc.outcome("algebra:ok-%s" % ("ym" if combo[0] or combo[1] else "fixed"))
@@ -1047,8 +1059,180 @@ def w_algebra(job):
             _add_exc(acc, "C09/period/algebra", ex, {"kind": "algebra", "period": dict(zip(pr.FIELDS, combo))})
     if shard == 0:
         acc.sample({"part": "period-algebra", "component_values": {f: list(v) for f, v in vals.items()}})
+    acc.note("unsupported", sorted(unsupported))
     acc.note("classes", sorted("alg/" + "".join("0+-"[s] if s >= 0 else "-" for s in c) for c in classes))
     return acc
+
+
+# ================================================================================================ part: apply-period (+ and - routes)
+class _Ambiguous(Exception):
+    pass
+
+
+def _model_apply(cal, cm, t, c, sign, nod=None):
+    """documented field-by-field application of sign * period: years, months, weeks, days (date-times: the day carried from the
+    time part rides on the days step).  -> (day number, nanosecond of day or None, clipped?, carry).  Raises pr.OutOfRange where a
+    step leaves the calendar, _Ambiguous where the model has no single answer (Badi Ayyam-i-Ha month moves)."""
+    lo, hi = dl.cal_range(cal)
+    clipped = False
+    for f, fn in (("years", cm.add_years), ("months", cm.add_months)):
+        v = sign * c[f]
+        if v:
+            r = fn(t[0], t[1], t[2], v)
+            if len(r) != 1:
+                raise _Ambiguous()
+            r = next(iter(r))
+            clipped = clipped or r[2] != t[2]
+            t = r
+    n = dl.daynum(LocalDate(t[0], t[1], t[2], cal))
+    carry = 0
+    if nod is not None:
+        total = sign * pr.fixed_total_ns({f: c[f] for f in pr.TIME_FIELDS})
+        carry, nod = divmod(nod + total, NSDAY)
+    for step in (7 * sign * c["weeks"], sign * c["days"] + carry):
+        if step:
+            n += step
+            if not (lo <= n <= hi):
+                raise pr.OutOfRange()
+    return n, nod, clipped, carry
+
+
+_DATE_PERIODS = [dict(zip(pr.DATE_FIELDS, v)) for v in itertools.product((0, 1, -1), (0, 1, -1, 11), (0, 1, -1), (0, 1, -2, 30)) if any(v)]
+_DT_DATE_PARTS = [{}, {"months": 1}, {"months": -1}, {"years": 1}, {"years": 1, "months": 1}, {"months": 1, "days": 2}, {"months": -1, "days": -2}, {"weeks": 1}]
+_DT_TIME_PARTS = [{}, {"hours": 1}, {"hours": -1}, {"hours": 25}, {"minutes": -90}, {"nanoseconds": 1}, {"nanoseconds": -1}, {"hours": 1, "minutes": -61}, {"hours": 24},
+                  {"seconds": 86_399, "milliseconds": 999, "ticks": 9_999, "nanoseconds": 100}]
+_DT_PERIODS = [dict(d, **t) for d in _DT_DATE_PARTS for t in _DT_TIME_PARTS if d or t]
+_T_PERIODS = [t for t in _DT_TIME_PARTS if t] + [{"hours": -25, "seconds": 1}, {"ticks": 1}, {"milliseconds": -1}]
+_ROUTES = {
+    "LocalDate": {"plus": [("+", lambda x, p: x + p), ("plus", lambda x, p: x.plus(p)), ("add", lambda x, p: LocalDate.add(x, p))],
+                  "minus": [("-", lambda x, p: x - p), ("minus", lambda x, p: x.minus(p)), ("subtract", lambda x, p: LocalDate.subtract(x, p))]},
+    "LocalDateTime": {"plus": [("+", lambda x, p: x + p), ("plus", lambda x, p: x.plus(p)), ("add", lambda x, p: LocalDateTime.add(x, p))],
+                      "minus": [("-", lambda x, p: x - p), ("minus", lambda x, p: x.minus(p)), ("subtract", lambda x, p: LocalDateTime.subtract(x, p))]},
+    "LocalTime": {"plus": [("+", lambda x, p: x + p), ("plus", lambda x, p: x.plus(p)), ("add", lambda x, p: LocalTime.add(x, p))],
+                  "minus": [("-", lambda x, p: x - p), ("minus", lambda x, p: x.minus(p)), ("subtract", lambda x, p: LocalTime.subtract(x, p))]},
+}
+
+
+def _apply_dates(cal, tier):
+    lo, hi = cal.min_year, cal.max_year
+    L = dl.leap_year_near(cal, (lo + hi) // 2) or (lo + hi) // 2
+    out = []
+    for y in (L, L + 1) if tier == "quick" else (L - 1, L, L + 1, lo, hi):
+        if not (lo <= y <= hi):
+            continue
+        n = cal.get_months_in_year(y)
+        for m in range(1, n + 1):
+            if tier == "quick" and y != L and m not in (1, 2, 3, n):
+                continue
+            dim = cal.get_days_in_month(y, m)
+            out += [(y, m, d) for d in sorted({1, dim, min(29, dim), min(30, dim)} | ({19, 20} if cal.id == "Badi" and m == 18 else set()))]
+    return out
+
+
+def w_apply(job):
+    cid, tier = job
+    acc = Acc()
+    cal = CalendarSystem.for_id(cid)
+    cm = model_of(cal)
+    classes = set()
+
+    def run_case(tname, x, t, nod, c, p, k):
+        for op, sign in (("plus", 1), ("minus", -1)):
+            nf = sum(1 for f in pr.DATE_FIELDS if c.get(f))
+            full = dict.fromkeys(pr.FIELDS, 0) | c
+            try:
+                n, nod2, clipped, carry = _model_apply(cal, cm, t, full, sign, nod)
+                exp = (n, nod2)
+            except pr.OutOfRange:
+                exp, clipped, carry = None, False, 0
+            except _Ambiguous:
+                acc.outcome("apply:model-ambiguous(Ayyam-i-Ha month move) skipped")
+                continue
+            cls = "%d-date-fields%s%s" % (nf, "-day-clipped" if clipped else "", "-time-carry%+d" % carry if carry else "")
+            classes.add((tname, op, cls))
+            P = "C09/%s/apply-period/%s.%s" % (cid, tname, op)
+            case = {"kind": "apply", "calendar": cid, "type": tname, "op": op, "start": list(t) + ([nod] if nod is not None else []), "period": c}
+            routes = _ROUTES[tname][op]
+            first = None
+            for ri, (rname, fn) in enumerate(routes if k % 4 == 0 else routes[:1]):
+                acc.count(transitions=1, evaluations=1)
+                try:
+                    r = fn(x, p)
+                    got = (dl.daynum(r if tname == "LocalDate" else r.date), None if tname == "LocalDate" else r.nanosecond_of_day)
+                    if not canonical(r if tname == "LocalDate" else r.date, cal):
+                        got = ("invalid", _safe_ymd(r if tname == "LocalDate" else r.date))
+                except Exception as e:  # noqa: BLE001
+                    if exc_origin(e) == "harness":
+                        raise
+                    got = ("raises", type(e).__name__)
+                if ri == 0:
+                    first = got
+                    if exp is None:
+                        if got[0] != "raises":
+                            acc.violation("%s/no-raise-outside-range/%s" % (P, cls), "%s %s %s %s leaves the calendar range at some step but returned day %r" % (tname, t, rname, pstr(p), got), case)
+                        else:
+                            acc.outcome("apply:raises-outside-range")
+                    elif got != exp:
+                        law = "raises-%s" % got[1] if got[0] == "raises" else "invalid-result" if got[0] == "invalid" else "wrong-result"
+                        want = dl.ymd(dl.from_daynum(exp[0], cal))
+                        acc.violation("%s/%s/%s" % (P, law, cls), "%s%s %s %s = %s, documented order (years, months, weeks, days%s) gives %s%s" % (
+                            t, "" if nod is None else "+%dns" % nod, rname, pstr(p), got if got[0] in ("raises", "invalid") else (dl.ymd(dl.from_daynum(got[0], cal)), got[1]),
+                            "" if nod is None else ", day carried from the time part on the days step", want, "" if nod is None else "+%dns" % exp[1]), case, py=_py_apply(cid, tname, t, nod, c, rname, want, exp[1]))
+                    else:
+                        acc.outcome("apply:%s.%s:%s" % (tname, op, "clipped" if clipped else "carry" if carry else "plain"))
+                elif got != first:
+                    acc.violation("%s/alias-differs/%s" % (P, rname), "%s %s: route %s gives %r, operator gives %r" % (t, pstr(p), rname, got, first), case)
+
+    dates = _apply_dates(cal, tier)
+    periods = [(c, PeriodBuilder(**c).build()) for c in _DATE_PERIODS]
+    for t in dates:
+        x = LocalDate(t[0], t[1], t[2], cal)
+        acc.count(states=1)
+        for k, (c, p) in enumerate(periods):
+            run_case("LocalDate", x, t, None, c, p, k)
+    dtp = [(c, PeriodBuilder(**c).build()) for c in _DT_PERIODS]
+    picks = [t for t in dates if t[2] in (1, cal.get_days_in_month(t[0], t[1]))]
+    picks = picks[:6] + picks[-4:] if tier == "quick" else picks
+    for t in picks:
+        for nod in (0, 30 * 60 * 10**9, 12 * 3600 * 10**9, NSDAY - 1):
+            x = LocalDate(t[0], t[1], t[2], cal).at(LocalTime.from_nanoseconds_since_midnight(nod))
+            acc.count(states=1)
+            for k, (c, p) in enumerate(dtp):
+                run_case("LocalDateTime", x, t, nod, c, p, k)
+    if cid == "ISO":
+        for nod in TIME_ALPHABET_NS:
+            x = LocalTime.from_nanoseconds_since_midnight(nod)
+            acc.count(states=1)
+            for c in _T_PERIODS:
+                p = PeriodBuilder(**c).build()
+                tot = pr.fixed_total_ns(c)
+                for op, sign in (("plus", 1), ("minus", -1)):
+                    exp = (nod + sign * tot) % NSDAY
+                    for rname, fn in _ROUTES["LocalTime"][op]:
+                        acc.count(transitions=1, evaluations=1)
+                        try:
+                            got = fn(x, p).nanosecond_of_day
+                        except Exception as e:  # noqa: BLE001
+                            if exc_origin(e) == "harness":
+                                raise
+                            got = "raises %s" % type(e).__name__
+                        if got != exp:
+                            acc.violation("C09/time/apply-period/LocalTime.%s/wrong-result/%s" % (op, "wraps" if not (0 <= nod + sign * tot < NSDAY) else "no-wrap"),
+                                          "LocalTime %d ns %s %s = %r, model (wrapping at midnight) %d" % (nod, rname, pstr(p), got, exp), {"kind": "apply", "calendar": "ISO", "type": "LocalTime", "start_ns": nod, "period": c})
+                        else:
+                            classes.add(("LocalTime", op, "wraps" if not (0 <= nod + sign * tot < NSDAY) else "no-wrap"))
+    acc.sample({"part": "apply-period", "calendar": cid, "dates": len(dates), "date_periods": len(periods), "datetimes": len(picks) * 4, "datetime_periods": len(dtp),
+                "routes": ["+", "plus", "add", "-", "minus", "subtract"], "dates_head": dates[:5]})
+    acc.note("classes", sorted("%s/%s/%s/%s" % ((cid,) + c) for c in classes))
+    return acc
+
+
+def _py_apply(cid, tname, t, nod, c, rname, want, nod2):
+    ctor = "LocalDate(%d, %d, %d, cal)" % tuple(t) + ("" if nod is None else ".at(LocalTime.from_nanoseconds_since_midnight(%d))" % nod)
+    call = {"+": "x + p", "-": "x - p", "plus": "x.plus(p)", "minus": "x.minus(p)", "add": "%s.add(x, p)" % tname, "subtract": "%s.subtract(x, p)" % tname}[rname]
+    chk = "    assert (r.year, r.month, r.day) == %r\n" % (tuple(want),) + ("" if nod is None else "    assert r.nanosecond_of_day == %d\n" % nod2)
+    return ("from pyoda_time import CalendarSystem, LocalDate, LocalDateTime, LocalTime, PeriodBuilder\n\n\ndef test_replay():\n    cal = CalendarSystem.for_id(%r)\n"
+            "    x = %s\n    p = PeriodBuilder(**%r).build()\n    r = %s\n" % (cid, ctor, c, call)) + chk
 
 
 # ================================================================================================ part: cross-calendar history
@@ -1134,6 +1318,8 @@ def run(ctx):
                 classes[name] = set()
                 order.append(name)
             classes[name] |= set(acc.notes.pop("classes", []))
+            for u in acc.notes.pop("unsupported", []):
+                ctx.degrade("clone route not supported by the type (TypeError), skipped: " + u)
             a = acc.notes.pop("alphabet", None)
             if a:
                 extra.setdefault(name, set()).add(a)
@@ -1155,6 +1341,7 @@ def run(ctx):
     part("between-datetime", w_between_dt, [(cid, tier, k, nd) for cid, _ in cals for nd in ((7 if cid in ("ISO", "Hebrew Civil", "Badi") else 1) if not big else 8,) for k in range(nd)])
     part("between-time", w_between_time, [(tier, k, 8) for k in range(8)])
     part("period-algebra", w_algebra, [(tier, k, 8) for k in range(8)])
+    part("apply-period", w_apply, [(cid, tier) for cid, _ in cals])
     queued.sort(key=lambda q: 0 if q[0] in ("between-date", "between-datetime") else 1)      # long jobs first (stable)
     flush()
     # the histories run in a pool of their own: each job is one process, one history
@@ -1166,7 +1353,9 @@ def run(ctx):
                 "(calendar, op, fast/slow path, landing class) with landing in same-month/same-year/prev|next|far-year(+first/last day). add-months: non-trivial = "
                 "distinct (calendar, op, direction, target month, same/other year, day class) resp. (direction, leap->leap class, month, day class). between-*: all ordered "
                 "pairs of the alphabet x all unit subsets; non-trivial = distinct (calendar, unit subset, direction, span, edge flags) classes. period-algebra: "
-                "non-trivial = distinct sign patterns of the ten components. cross-calendar: four histories, each in ONE process, asking days_between / "
+                "non-trivial = distinct sign patterns of the ten components. apply-period: dates = every month of a leap year x {1st, 29/30, last} (+ the next year's first/last months), "
+                "143 date periods (all combinations of years 0/+-1, months 0/+-1/11, weeks 0/+-1, days 0/1/-2/30) and 79 date-time periods x 6 routes; non-trivial = distinct (calendar, type, "
+                "plus/minus, number of date fields, day clipped?, day carried from the time part). cross-calendar: four histories, each in ONE process, asking days_between / "
                 "between(DAYS, WEEKS, WEEKS+DAYS, default) / plus_days for the same (y, m, d) field pairs in every calendar where they are valid, in different calendar "
                 "orders; non-trivial = distinct (calendar, span).")
     ctx.assumptions = ["the day-number <-> date bijection of each calendar (C01/C02) is the axis of the oracle",
@@ -1207,6 +1396,8 @@ def replay(rec):
         acc = w_between_dt((case["calendar"], rec.get("tier", "quick"), 0, 1))
     elif kind == "between-time":
         acc = w_between_time((rec.get("tier", "quick"), 0, 1))
+    elif kind == "apply":
+        acc = w_apply((case["calendar"], rec.get("tier", "quick")))
     elif kind == "cross":
         acc = w_cross((rec.get("tier", "quick"), case["order"], rec.get("seed", 0)))
     elif kind == "algebra":
